@@ -6,7 +6,7 @@ def run(tier):
     for th, n, ct in cfgs:
         e2e_ob(r, 'stream-iv-binding-T%d-len%d-c%d' % (th, n, ct), th, n, ct, 0, 1, extra=['CHECK_STREAM_IV'], known_key='stream-iv-binding', timeout=900)
     # seed dependence of the stored IVs: iv[0] = SHA1(seed), iv[j] = SHA1(iv[j-1]) is part of the format obligation (here without the binding check)
-    for sl in ((5, 20) if tier == 'quick' else (0, 1, 5, 20, 55, 56, 64, 100)):
+    for sl in ((5, 20, 256, 300) if tier == 'quick' else (0, 1, 5, 20, 55, 56, 64, 100, 255, 256, 257, 300, 520)):
         e2e_ob(r, 'iv-chain-seed%d' % sl, 3, 20, 2, 0, 1, extra=['SEEDLEN=%d' % sl], timeout=900)
     r.bounds = ['T in {2,3}, one chunk per stream, CTR/OFB and the other non-ECB modes; seeds of the listed lengths, contents symbolic']
     r.outside = ['A-SHA: SHA-1 has no collisions / short cycles, so the chained IV slots differ and depend on the seed - not a solver claim']
